@@ -114,6 +114,7 @@ package bloomsearch
 //@ global ErrEngineStopped != ErrMergeInProgress && ErrMergeInProgress != ErrPostCommitCleanup
 // Only buffers that exist can be checked out of the scan-buffer pool.
 //@ global forall a :: ghost.bufOwned[a] ==> a >= $alloc
+//@ global forall a :: ghost.everPooled[a] ==> a >= $alloc
 //@ global forall a :: ghost.pinned[a] ==> a >= $alloc && a != 0
 
 //@ ghostvar roundAttempts int  // waiters attempted inside answer rounds (attempts - roundAttempts = direct answers)
@@ -124,6 +125,7 @@ package bloomsearch
 //@ ghostvar rwUnlocks int       // (*sync.RWMutex).Unlock calls
 //@ ghostvar pinned map[int]bool     // backing array of a row buffer that bloom entry sets may still hold string views into (indexRow)
 //@ ghostvar bufOwned map[int]bool   // scan-buffer typestate: backing array is checked out of the pool and not yet returned
+//@ ghostvar everPooled map[int]bool // backing array has been handed to the scan-buffer pool at some point (another scan may be refilling it)
 
 //@ extern (*sync.RWMutex).RLock
 //@ modifies ghost.rwRLocks
@@ -600,8 +602,10 @@ package bloomsearch
 //@ ghostvar delivers int          // calls of Results.deliver
 //@ ghostvar cancels int           // calls through a context.CancelFunc field are not tracked; placeholder
 
+//@ ghostvar atomAdded int   // sum of the deltas passed to (*atomic.Int64).Add (the cursor's matched-row counter is the only such counter on the delivery path)
 //@ extern (*atomic.Int64).Add
-//@ pure
+//@ modifies ghost.atomAdded
+//@ ensures ghost.atomAdded == old(ghost.atomAdded) + delta
 //@ extern (*atomic.Int64).Load
 //@ pure
 
@@ -696,17 +700,22 @@ package bloomsearch
 //@ props C22 C02
 //@ requires r != nil && slot != nil
 //@ entry ghost.delivers = ghost.delivers + 1
-//@ modifies *slot, ghost.delivers, ghost.sends, ghost.nilsends, ghost.recvs
+//@ modifies *slot, ghost.delivers, ghost.sends, ghost.nilsends, ghost.recvs, ghost.atomAdded
 //@ at select #2 assert [C22] !slot.held
 //@ ensures ghost.delivers == old(ghost.delivers) + 1
 //@ ensures [C02] result == nil ==> sent(r.rowChan) == old(sent(r.rowChan)) + 1
 //@ ensures [C02] sent(r.rowChan) <= old(sent(r.rowChan)) + 1
+// C23: RowsMatched counts every batch that was handed to the consumer, on the
+// fast path and on the blocking path alike: the counter advances by the batch
+// length exactly when the batch was sent.
+//@ ensures [C23] sent(r.rowChan) == old(sent(r.rowChan)) + 1 ==> ghost.atomAdded == old(ghost.atomAdded) + len(batch)
+//@ ensures [C23] sent(r.rowChan) == old(sent(r.rowChan)) ==> ghost.atomAdded == old(ghost.atomAdded)
 
 // rowBatcher: a batch is handed to deliver exactly once and then forgotten.
 //@ func (*rowBatcher).flush
 //@ props C02
 //@ requires b != nil && b.results != nil && b.slot != nil
-//@ modifies b.batch, *b.slot, ghost.delivers, ghost.sends, ghost.nilsends, ghost.recvs
+//@ modifies b.batch, *b.slot, ghost.delivers, ghost.sends, ghost.nilsends, ghost.recvs, ghost.atomAdded
 //@ ensures b.batch == nil || old(len(b.batch)) == 0
 //@ ensures old(len(b.batch)) == 0 ==> ghost.delivers == old(ghost.delivers) && result == nil
 //@ ensures old(len(b.batch)) > 0 ==> ghost.delivers == old(ghost.delivers) + 1
@@ -741,6 +750,17 @@ package bloomsearch
 //@ modifies ghost.mutexLocks, ghost.mutexUnlocks
 //@ loop 0 invariant -1 <= $index && $index < len(r.blockStats) && stats.BlocksSkipped + stats.BlocksProcessed == $index + 1 && stats.BlocksSkipped >= 0 && stats.BlocksProcessed >= 0
 //@ loop 0 invariant len(stats.BlockStats) == len(r.blockStats) && (len(r.blockStats) == 0 || arr(stats.BlockStats) != arr(r.blockStats))
+// totals equal the per-block sums (folds over the recorded entries, any number of
+// them), stated for non-negative per-block counts whose sums fit an int64
+//@ pred rowsOf(bs []BlockStats) = sum e in bs :: e.RowsProcessed
+//@ pred bytesOf(bs []BlockStats) = sum e in bs :: e.BytesProcessed
+//@ requires [C23] forall e in r.blockStats :: e.RowsProcessed >= 0 && e.BytesProcessed >= 0
+//@ loop 0 invariant [C23] forall e in r.blockStats :: e.RowsProcessed >= 0 && e.BytesProcessed >= 0
+//@ loop 0 invariant [C23] rowsOf(r.blockStats[:$index + 1]) >= 0 && bytesOf(r.blockStats[:$index + 1]) >= 0
+//@ loop 0 invariant [C23] rowsOf(r.blockStats[:$index + 1]) <= MaxInt64 ==> stats.RowsScanned == rowsOf(r.blockStats[:$index + 1])
+//@ loop 0 invariant [C23] bytesOf(r.blockStats[:$index + 1]) <= MaxInt64 ==> stats.BytesScanned == bytesOf(r.blockStats[:$index + 1])
+//@ ensures [C23] rowsOf(r.blockStats) <= MaxInt64 ==> result.RowsScanned == rowsOf(r.blockStats)
+//@ ensures [C23] bytesOf(r.blockStats) <= MaxInt64 ==> result.BytesScanned == bytesOf(r.blockStats)
 //@ ensures result.BlocksSkipped + result.BlocksProcessed == len(r.blockStats)
 //@ ensures len(result.BlockStats) == len(r.blockStats)
 //@ ensures len(r.blockStats) > 0 ==> arr(result.BlockStats) != arr(r.blockStats)
@@ -836,7 +856,7 @@ package bloomsearch
 //@ func (*blockFilterCursor).filtersFor
 //@ props C19 C24 C01 C03
 //@ requires c != nil && 0 <= i && i < len(c.blocks) && cursorOK(c)
-//@ modifies c.buf, c.chunkStart, c.chunkShare, heap(byte), heap(BloomFilters), heap(bloom.BloomFilter), heap(bitset.BitSet), heap(uint64), ghost.bufOwned, ghost.seekPos, scanBufferPools
+//@ modifies c.buf, c.chunkStart, c.chunkShare, heap(byte), heap(BloomFilters), heap(bloom.BloomFilter), heap(bitset.BitSet), heap(uint64), ghost.bufOwned, ghost.everPooled, ghost.seekPos, scanBufferPools
 //@ requires [C01] chunkOK(c)
 //@ ensures [C01] chunkOK(c)
 // the bytes handed to the parser are byte for byte the section the block's metadata declares, whatever the chunking
@@ -890,7 +910,7 @@ package bloomsearch
 //@ requires [C02] ghost.matchedOK
 //@ entry ghost.matchedOK = false
 //@ entry ghost.rowsAdded = ghost.rowsAdded + 1
-//@ modifies b.batch, *b.slot, heap(map[string]any), ghost.matchedOK, ghost.rowsAdded, ghost.delivers, ghost.sends, ghost.nilsends, ghost.recvs
+//@ modifies b.batch, *b.slot, heap(map[string]any), ghost.matchedOK, ghost.rowsAdded, ghost.delivers, ghost.sends, ghost.nilsends, ghost.recvs, ghost.atomAdded
 //@ ensures ghost.rowsAdded == old(ghost.rowsAdded) + 1 && !ghost.matchedOK
 
 // processDataBlock: exactly one stats entry on every exit, never a "skipped"
@@ -902,7 +922,7 @@ package bloomsearch
 //@ props C02 C21 C22 C23
 //@ requires b != nil && r != nil && slot != nil && handles != nil && rowMatcher != nil
 //@ requires [C22] slot.held
-//@ modifies heaps, ghost.statsRecorded, ghost.statsSkipped, ghost.statsNonZeroSkipped, ghost.errsRecorded, ghost.hAcquired, ghost.hPut, ghost.hDiscarded, ghost.handleCloses, ghost.opens, ghost.matchedOK, ghost.rowsAdded, ghost.unsafeViews, ghost.delivers, ghost.bufOwned, ghost.mutexLocks, ghost.mutexUnlocks, ghost.sends, ghost.nilsends, ghost.recvs, ghost.seekPos, ghost.stageIn, ghost.rowsScanned, ghost.scanErrs
+//@ modifies heaps, ghost.statsRecorded, ghost.statsSkipped, ghost.statsNonZeroSkipped, ghost.errsRecorded, ghost.hAcquired, ghost.hPut, ghost.hDiscarded, ghost.handleCloses, ghost.opens, ghost.matchedOK, ghost.rowsAdded, ghost.unsafeViews, ghost.delivers, ghost.bufOwned, ghost.everPooled, ghost.mutexLocks, ghost.mutexUnlocks, ghost.sends, ghost.nilsends, ghost.recvs, ghost.seekPos, ghost.stageIn, ghost.rowsScanned, ghost.scanErrs, ghost.atomAdded
 //@ loop 0 invariant ghost.statsRecorded == old(ghost.statsRecorded) && ghost.statsSkipped == old(ghost.statsSkipped) && ghost.hAcquired == old(ghost.hAcquired) + 1 && ghost.hPut == old(ghost.hPut) + 1 && ghost.hDiscarded == old(ghost.hDiscarded)
 //@ loop 0 invariant scanner != nil && 0 <= scanner.pos && scanner.pos <= len(scanner.data) && batcher.results == r && batcher.slot == slot && r != nil && slot != nil
 //@ at call (*fileHandlePool).acquire#1 assert [C22] slot.held
@@ -1119,7 +1139,7 @@ package bloomsearch
 //@ props C24 C23 C21 C22
 //@ requires b != nil && r != nil && slot != nil && handles != nil
 //@ requires slot.ctx == r.ctx
-//@ modifies heaps, ghost.statsRecorded, ghost.statsSkipped, ghost.statsNonZeroSkipped, ghost.errsRecorded, ghost.hAcquired, ghost.hPut, ghost.hDiscarded, ghost.handleCloses, ghost.opens, ghost.bloomVerdict, ghost.bufOwned, ghost.mutexLocks, ghost.mutexUnlocks, ghost.sends, ghost.nilsends, ghost.recvs, ghost.seekPos
+//@ modifies heaps, ghost.statsRecorded, ghost.statsSkipped, ghost.statsNonZeroSkipped, ghost.errsRecorded, ghost.hAcquired, ghost.hPut, ghost.hDiscarded, ghost.handleCloses, ghost.opens, ghost.bloomVerdict, ghost.bufOwned, ghost.everPooled, ghost.mutexLocks, ghost.mutexUnlocks, ghost.sends, ghost.nilsends, ghost.recvs, ghost.seekPos
 //@ loop 0 invariant -1 <= $index && $index < len(blocks) && len(dst) == old(len(dst)) + $index + 1 && ghost.statsRecorded == old(ghost.statsRecorded) && ghost.hAcquired == old(ghost.hAcquired) && ghost.opens == old(ghost.opens) && ghost.hPut == old(ghost.hPut) && ghost.hDiscarded == old(ghost.hDiscarded) && ghost.statsNonZeroSkipped == old(ghost.statsNonZeroSkipped)
 //@ loop 1 invariant -1 <= $index && $index < len(blocks) && len(dst) == old(len(dst)) + $index + 1 && ghost.statsRecorded == old(ghost.statsRecorded) && ghost.hAcquired == old(ghost.hAcquired) && ghost.opens == old(ghost.opens) && ghost.hPut == old(ghost.hPut) && ghost.hDiscarded == old(ghost.hDiscarded) && ghost.statsNonZeroSkipped == old(ghost.statsNonZeroSkipped) && slot.held
 //@ loop 2 invariant -1 <= $index && $index < len(blocks) && (ghost.statsRecorded - old(ghost.statsRecorded)) + (len(dst) - old(len(dst))) == $index + 1
@@ -1467,6 +1487,46 @@ package bloomsearch
 //@ ensures arr(rowBytes) != 0 ==> ghost.pinned[arr(rowBytes)]
 //@ ensures forall a :: a != arr(rowBytes) || a == 0 ==> ghost.pinned[a] == old(ghost.pinned[a])
 //@ ensures s.fields == old(s.fields) && s.tokens == old(s.tokens) && s.fieldTokens == old(s.fieldTokens)
+
+// indexRow's callbacks (C18, C01 L1). The walk and the tokenizer are libraries /
+// user code; what IS this package's code is what happens at each emission, and
+// that is under contract: the emit callback records the emitted path, never
+// stops the walk early, and — on the general tokenizer path — records every
+// token the tokenizer returns and calls addFieldToken once for each of them
+// (loop invariant over the tokenizer's result, of any length; `$range` names
+// it). addFieldToken records the key it has built and removes nothing.
+//@ ghostvar ftAdds int     // addFieldToken calls
+//@ func (*bloomEntrySets).addFieldToken
+//@ appends s.keyBuf
+//@ props C18
+//@ requires s != nil
+//@ entry ghost.ftAdds = ghost.ftAdds + 1
+//@ modifies s.keyBuf, heap(byte), map(s.fieldTokens), ghost.ftAdds
+//@ ensures ghost.ftAdds == old(ghost.ftAdds) + 1
+//@ ensures has(s.fieldTokens, str(s.keyBuf))
+//@ ensures forall k str :: old(has(s.fieldTokens, k)) ==> has(s.fieldTokens, k)
+
+//@ func (*bloomEntrySets).indexRow$1
+//@ props C18
+//@ requires s != nil && s.fields != nil && s.tokens != nil && s.fieldTokens != nil && s.fields != s.tokens && s.fields != s.fieldTokens && s.tokens != s.fieldTokens
+//@ modifies all
+//@ loop 0 invariant -1 <= $index && $index < len($range) && s != nil && ghost.ftAdds == old(ghost.ftAdds) + $index + 1
+//@ loop 0 invariant forall t in $range[:$index + 1] :: has(s.tokens, t)
+//@ ensures result
+//@ at call leafTokenInput#1 assert has(s.fields, str(path))     // the emitted path is in the field set before the leaf is looked at
+//@ ensures !isLeaf ==> has(s.fields, str(path))     // containers and key-prefix paths too
+//@ ensures ghost.ftAdds >= old(ghost.ftAdds)
+
+// the fast-path word callback: the folded word is recorded as a token, the pair
+// is recorded (one addFieldToken call), and the enumeration of words goes on.
+//@ func (*bloomEntrySets).indexRow$1$1
+//@ appends s.tokenBuf
+//@ props C18
+//@ requires s != nil && s.tokens != nil
+//@ modifies all
+//@ at call (*bloomEntrySets).addFieldToken#1 assert has(s.tokens, str(s.tokenBuf))     // the folded word is in the token set before the pair is recorded
+//@ ensures result
+//@ ensures ghost.ftAdds == old(ghost.ftAdds) + 1
 
 // counts only reads.
 //@ func (*bloomEntrySets).counts
@@ -1873,10 +1933,15 @@ package bloomsearch
 //@ modifies heaps, ghost.seekPos
 //@ ensures result1 == nil && normalizeCompressionIsNone(block) ==> result0 == compressed
 //@ ensures result1 == nil && !normalizeCompressionIsNone(block) && cap(dst) >= block.UncompressedSize ==> arr(result0) == arr(dst)     // decodes into dst when it fits
+//@ ensures result1 == nil ==> arr(result0) == 0 || arr(result0) == arr(compressed) || arr(result0) == arr(dst) || arr(result0) < old($alloc)     // the input, dst, or a buffer allocated here: never some other existing buffer
 //@ pred normalizeCompressionIsNone(b *DataBlockMetadata) = b.Compression == "" || b.Compression == CompressionNone
 
 //@ func ReadDataBlockRowData
-//@ props C19 C18
+//@ props C19 C18 C17
+// the row data handed back is a plainly allocated buffer: it has never been in
+// the scan-buffer pool, so no other reader can be refilling it (the merge path
+// and external readers keep views into it)
+//@ ensures [C17,C18,C19] result1 == nil ==> arr(result0) == 0 || !ghost.everPooled[arr(result0)]
 //@ safety
 //@ alloc_limit fileSize(file)
 //@ requires block != nil
@@ -1887,7 +1952,7 @@ package bloomsearch
 //@ safety
 //@ alloc_limit fileSize(file)
 //@ requires block != nil
-//@ modifies heaps, ghost.bufOwned, ghost.seekPos
+//@ modifies heaps, ghost.bufOwned, ghost.everPooled, ghost.seekPos
 //@ at call getScanBuffer#1 assert [C19] block.RowDataSize <= fileSize(file)
 // C03: the row data handed to the scan is a buffer this call still holds checked
 // out of the pool — it has not been handed back (and so cannot be refilled by
@@ -1898,7 +1963,7 @@ package bloomsearch
 //@ props C19 C03
 //@ safety
 //@ alloc_limit fileSize(file)
-//@ modifies heaps, ghost.bufOwned, ghost.seekPos
+//@ modifies heaps, ghost.bufOwned, ghost.everPooled, ghost.seekPos
 //@ at call getScanBuffer#1 assert [C19] blockMetadata.BloomFilterSize <= fileSize(file)
 
 //@ extern bytes.NewReader
@@ -1969,7 +2034,7 @@ package bloomsearch
 //@ props C19 C03 C18
 //@ ensures arr(result) != 0 ==> !old(ghost.bufOwned[arr(result)])
 //@ exit ghost.bufOwned = arr(result) != 0 ? update(ghost.bufOwned, arr(result), true) : ghost.bufOwned
-//@ modifies ghost.bufOwned, scanBufferPools
+//@ modifies ghost.bufOwned, ghost.everPooled, scanBufferPools
 //@ ensures size <= 0 ==> result == nil
 //@ ensures size > 0 ==> len(result) == size
 //@ ensures arr(result) != 0 ==> ghost.bufOwned[arr(result)]
@@ -1981,7 +2046,10 @@ package bloomsearch
 //@ requires [C19,C03] arr(buf) == 0 || ghost.bufOwned[arr(buf)]
 //@ requires [C18] arr(buf) == 0 || !ghost.pinned[arr(buf)]   // never pool a buffer that index entries still view
 //@ entry ghost.bufOwned = arr(buf) != 0 ? update(ghost.bufOwned, arr(buf), false) : ghost.bufOwned
-//@ modifies ghost.bufOwned, scanBufferPools
+//@ entry ghost.everPooled = arr(buf) != 0 ? update(ghost.everPooled, arr(buf), true) : ghost.everPooled
+//@ ensures arr(buf) != 0 ==> ghost.everPooled[arr(buf)]
+//@ ensures forall a :: a != arr(buf) ==> ghost.everPooled[a] == old(ghost.everPooled[a])
+//@ modifies ghost.bufOwned, ghost.everPooled, scanBufferPools
 //@ ensures arr(buf) != 0 ==> !ghost.bufOwned[arr(buf)]
 //@ ensures forall a :: a != arr(buf) ==> ghost.bufOwned[a] == old(ghost.bufOwned[a])
 
@@ -1995,7 +2063,7 @@ package bloomsearch
 //@ func (*blockFilterCursor).release
 //@ props C19 C03
 //@ requires c != nil && cursorOK(c)
-//@ modifies c.buf, ghost.bufOwned, scanBufferPools
+//@ modifies c.buf, ghost.bufOwned, ghost.everPooled, scanBufferPools
 //@ ensures c.buf == nil
 
 // readChunkFrom: the read starts at block i's section, stays inside the region,
@@ -2006,7 +2074,7 @@ package bloomsearch
 //@ props C19 C24 C01 C03
 //@ requires c != nil && 0 <= i && i < len(c.blocks) && cursorOK(c)
 //@ requires c.blocks[i].BloomFilterSize > 0 && validSection(c.blocks[i], c.regionStart, c.regionEnd)
-//@ modifies c.buf, c.chunkStart, c.chunkShare, heap(byte), ghost.bufOwned, ghost.seekPos, scanBufferPools
+//@ modifies c.buf, c.chunkStart, c.chunkShare, heap(byte), ghost.bufOwned, ghost.everPooled, ghost.seekPos, scanBufferPools
 //@ requires [C01] chunkOK(c)
 //@ ensures [C01] chunkOK(c)
 //@ loop 0 invariant i < j && j <= len(c.blocks) && covered >= 1 && covered <= j - i && cursorOK(c) && c.buf == old(c.buf) && c.chunkStart == old(c.chunkStart)
